@@ -773,7 +773,13 @@ func (r *Router) processEvent(ev *types.Event, reqID interface{}) error {
 
 			// If the span was kept, we want to generate a probe that we'll forward
 			// to a peer IF this span would have been forwarded.
-			ev.Data.MetaRefineryProbe.Set(true)
+			// The kept span itself is already queued for Honeycomb and the
+			// transmission reads it when it sends, so the probe must be a copy:
+			// marking (and below, re-addressing) the original would change what
+			// is sent upstream.
+			probe := *ev
+			probe.Data.MetaRefineryProbe.Set(true)
+			ev = &probe
 			isProbe = true
 		}
 	}
